@@ -56,7 +56,7 @@ type Script struct {
 }
 
 type TOp struct {
-	Op       string `json:"op"` // sched | run | cancel | exists | list
+	Op       string `json:"op"` // sched | run | cancel | exists | list | cancelall
 	Name     int    `json:"name,omitempty"`
 	Periodic bool   `json:"periodic,omitempty"`
 }
@@ -569,6 +569,9 @@ var callKinds = []string{"run", "run", "run", "run", "cancel", "cancel", "ctx", 
 
 func genOneOff(r *Rand) (Script, []string) {
 	T := r.Range(2, 6)
+	if r.Chance(1, 12) {
+		T = r.Range(0, 1) // already due, or due at once
+	}
 	sc := Script{Kind: "oneoff", Due: T, Dur: []int{0, 0, 2, 1, 3}[r.Intn(5)]}
 	off := func() int { return T + r.Range(-1, 1) }
 	var tags []string
@@ -759,7 +762,11 @@ func genTable(r *Rand) []TOp {
 		case k < 11:
 			ops = append(ops, TOp{Op: "exists", Name: name})
 		default:
-			ops = append(ops, TOp{Op: "list"})
+			if r.Chance(1, 3) {
+				ops = append(ops, TOp{Op: "cancelall"})
+			} else {
+				ops = append(ops, TOp{Op: "list"})
+			}
 		}
 	}
 	return ops
@@ -809,6 +816,9 @@ func runTable(t *testing.T, ops []TOp) (outs []string, runs []string, nontrivial
 				outs = append(outs, App("TCode", strings.TrimPrefix(codeOf(err), "Ret ")))
 			case "cancel":
 				outs = append(outs, App("TCode", strings.TrimPrefix(codeOf(svc.CancelJob(ctx, nm(op.Name))), "Ret ")))
+			case "cancelall":
+				svc.CancelJobs(ctx, "n")
+				outs = append(outs, App("TCode", "Nil"))
 			case "exists":
 				outs = append(outs, App("TBool", Bool(svc.JobExists(ctx, nm(op.Name)))))
 			case "list":
@@ -849,6 +859,8 @@ func tableTerm(ops []TOp) string {
 			items = append(items, App("TCancel", N(uint64(op.Name))))
 		case "exists":
 			items = append(items, App("TExists", N(uint64(op.Name))))
+		case "cancelall":
+			items = append(items, "TCancelAll")
 		default:
 			items = append(items, "TList")
 		}
